@@ -5,11 +5,14 @@ From M Require Chunk.
 From M Require LexCut.
 From M Require MultiMsg.
 From M Require EmptyMsg.
+From M Require CrLf.
 From M Require Chunk.
+From M Require Framing2.
 From M Require Fuel.
 From M Require Isolation.
 From M Require LexBounds.
 From M Require LexModel.
+From M Require MultiMsg.
 From M Require ParserModel.
 From M Require UnitProgress.
 Import ListNotations.
@@ -112,7 +115,7 @@ Module T_detect_cut. Import LexCut. Local Open Scope bool_scope. Local Open Scop
 Import LexModel LexBounds UnitProgress. Local Open Scope Z_scope.
 Theorem C08_detect_cut :
   forall a t z,
-  plain a -> tchar t -> detect_unit (a ++ t :: z) = detect_t a t.
+  plain a -> tchar t -> detect_unit (a ++ t :: z) = detect_t a t (starts (ischr 10%N) z).
 Proof. exact (@LexCut.detect_cut). Qed.
 End T_detect_cut.
 Definition C08_detect_cut := @T_detect_cut.C08_detect_cut.
@@ -168,4 +171,38 @@ Theorem C08_empty_message_silent :
 Proof. exact (@EmptyMsg.empty_message_silent). Qed.
 End T_empty_message_silent.
 Definition C08_empty_message_silent := @T_empty_message_silent.C08_empty_message_silent.
+
+Module T_scan_msg_gen. Import MultiMsg. Local Open Scope bool_scope. Local Open Scope Z_scope.
+Import ParserModel Chunk Fuel. Local Open Scope Z_scope.
+Theorem C08_scan_msg_gen :
+  forall d a0 tm rest,
+  seg a0 -> (tm = 10%N \/ tm = 13%N) -> forall f tot c res, mem c = a0 ++ tm :: rest ->
+  0 <= tot <= Z.of_nat (length a0) -> (Z.to_nat (Z.of_nat (length a0) - tot) < f)%nat ->
+  exists k, (1 <= k <= f)%nat /\ Z.of_nat k <= Z.of_nat (length a0) + 1 - tot /\
+    input_loop f c tot res d =
+      (let '(c1, res1) := scpi_parse c (mlen a0 tm rest) d in
+       input_loop (f - k) (upd_mem c1 (dropm (mem c1) (mlen a0 tm rest))) 0 res1 d).
+Proof. exact (@MultiMsg.scan_msg_gen). Qed.
+End T_scan_msg_gen.
+Definition C08_scan_msg_gen := @T_scan_msg_gen.C08_scan_msg_gen.
+
+Module T_scpi_parse_crlf. Import CrLf. Local Open Scope bool_scope. Local Open Scope Z_scope.
+Import ParserModel Chunk Fuel Framing2 MultiMsg Isolation. Local Open Scope Z_scope.
+Theorem C08_scpi_parse_crlf :
+  forall d c a0 rest,
+  mem c = a0 ++ 13%N :: 10%N :: rest -> seg a0 ->
+  scpi_parse c (Z.of_nat (length a0) + 2) d = scpi_parse c (Z.of_nat (length a0) + 1) d.
+Proof. exact (@CrLf.scpi_parse_crlf). Qed.
+End T_scpi_parse_crlf.
+Definition C08_scpi_parse_crlf := @T_scpi_parse_crlf.C08_scpi_parse_crlf.
+
+Module T_crlf_stream_any_partition. Import CrLf. Local Open Scope bool_scope. Local Open Scope Z_scope.
+Import ParserModel Chunk Fuel Framing2 MultiMsg Isolation. Local Open Scope Z_scope.
+Theorem C08_crlf_stream_any_partition :
+  forall d,
+  forall chunks c, chunks <> [] -> Forall (fun x => x <> []) chunks -> ok_class' c (concat chunks) ->
+  E (feed c chunks d) (fst (input_core c (concat chunks) d)).
+Proof. exact (@CrLf.crlf_stream_any_partition). Qed.
+End T_crlf_stream_any_partition.
+Definition C08_crlf_stream_any_partition := @T_crlf_stream_any_partition.C08_crlf_stream_any_partition.
 
